@@ -239,3 +239,78 @@ func TestReplay(t *testing.T) {
 	}
 	hx.Class("C06/replay-files", int64(n))
 }
+
+// ---- several matchers in one set: each must see the same bytes ----
+
+// TestMatcherSetsCompose: the verdict of a set [m1, m2] on a prefix must be the
+// AND composition of the verdicts m1 and m2 give alone on that same prefix
+// (m1's verdict unless it is yes, else m2's): evaluating m1 must not change
+// what m2 reads. Also covers `not` around a stream matcher.
+func TestMatcherSetsCompose(t *testing.T) {
+	tgs := targets()
+	ms := make([]layer4.ConnMatcher, len(tgs))
+	for i, tg := range tgs {
+		ms[i] = mx.MustMatcher(tg.name, tg.cfg)
+	}
+	single := func(m layer4.ConnMatcher, stream []byte, p int) mx.Verdict {
+		return mx.Eval(m, stream[:p], stream[p:], false, false).V
+	}
+	rapid.Check(t, func(rt *rapid.T) {
+		i := rapid.IntRange(0, len(tgs)-1).Draw(rt, "m1")
+		j := rapid.IntRange(0, len(tgs)-1).Draw(rt, "m2")
+		src := tgs[i]
+		if rapid.Bool().Draw(rt, "streamFromSecond") {
+			src = tgs[j]
+		}
+		msg := src.gens[rapid.IntRange(0, len(src.gens)-1).Draw(rt, "gen")](rt)
+		if len(msg) > 600 {
+			msg = msg[:600]
+		}
+		set := layer4.MatcherSet{ms[i], ms[j]}
+		label := tgs[i].label() + " & " + tgs[j].label()
+		interesting := false
+		for p := 0; p <= len(msg); p++ {
+			v1, v2 := single(ms[i], msg, p), single(ms[j], msg, p)
+			if v1 == mx.Panicked || v2 == mx.Panicked {
+				hx.Excluded("panic-is-C04")
+				return
+			}
+			want := v1
+			if v1 == mx.Yes {
+				want = v2
+				interesting = true
+			}
+			under := hx.NewScriptConn([][]byte{msg[p:]}, hx.EndEOF)
+			under.Local, under.Remote = mx.TCPLocal, mx.TCPRemote
+			cx := layer4.VerifNewConnection(under, msg[:p], zap.NewNop())
+			ok, err := set.Match(cx)
+			got := mx.No
+			switch {
+			case err == nil && ok:
+				got = mx.Yes
+			case err == nil:
+			case errors.Is(err, layer4.ErrConsumedAllPrefetchedBytes):
+				got = mx.NeedMore
+			case errors.Is(err, layer4.ErrMatchingBufferFull):
+				got = mx.BufferFull
+			default:
+				got = mx.OtherErr
+			}
+			if got != want {
+				hx.Fail(rt, "C06", "set-composition", "matcher set [%s] answers %q on the %d-byte prefix, but alone the matchers answer %q and %q (the first matcher changed what the second reads?)\nstream=%s",
+					label, got.String(), p, v1.String(), v2.String(), hexs(msg))
+				return
+			}
+			if rest, err := io.ReadAll(cx); err != nil || !bytes.Equal(rest, msg) {
+				hx.Fail(rt, "C06", "stream-changed/set", "after matcher set [%s] on a %d-byte prefix the connection yields %d bytes (first difference at %d), want the %d-byte stream\nstream=%s",
+					label, p, len(rest), hx.FirstDiff(rest, msg), len(msg), hexs(msg))
+				return
+			}
+		}
+		hx.Class("C06/prefix-evaluations", int64(3*(len(msg)+1)))
+		hx.Case(hx.Hash("set", label, msg), interesting, "C06/matcher-set-of-two")
+		if interesting {
+			hx.Sample("set/"+tgs[i].name, map[string]any{"set": label, "stream_len": len(msg), "stream_hex": hexs(msg[:min(len(msg), 40)])})
+		}
+	})
+}
